@@ -697,6 +697,39 @@ func runC09(c *core.Ctx) {
 			}
 		}
 	}
+	// (ii-b) moving definitions when the document has many definitions of its own: the k-th definition by order of
+	// appearance is another one when the moved block sits at the top (k at every boundary size)
+	kk := 0
+	for _, k := range wl.BoundarySizes {
+		if k > 1025 {
+			continue
+		}
+		for _, j := range []int{1, 2, 5, 40} {
+			kk++
+			if !c.Mine(kk) {
+				continue
+			}
+			var refs, own, moved strings.Builder
+			for i := 0; i < k; i++ {
+				fmt.Fprintf(&refs, "[own%d] ", i)
+				if i%8 == 7 {
+					refs.WriteString("\n")
+				}
+				fmt.Fprintf(&own, "[own%d]: /o%d\n", i, i)
+			}
+			for i := 0; i < j; i++ {
+				fmt.Fprintf(&refs, "[MV%d] [text][mv%d] ", i, i)
+				fmt.Fprintf(&moved, "[mv%d]: /m%d 't%d'\n", i, i, i)
+			}
+			d := "intro\n\n" + own.String() + "\n" + refs.String() + "\n\n# end\n"
+			for si, sp := range specs {
+				if (kk+si)%2 == 0 {
+					c09CheckMove(c, pool, sp, &c09Move{d: []byte(d), defs: []byte(moved.String())})
+					c.Count("definition_moves_with_many_own_definitions", 1)
+				}
+			}
+		}
+	}
 	// (ii) moving definitions
 	n2 := c.PerShard(c.N(350000, 15000000))
 	for i := 0; i < n2; i++ {
